@@ -39,3 +39,26 @@ fn k_cmp_short_buffer_nopanic() {
     }
     kani::cover!(true, "reachable");
 }
+
+//@unit props=C16,C18 label=B tier=quick native=1 fn=cmp::CMP::from_existing bound="by execution: tables of 0, 1, 2, 40 and 41 entries (56 bytes each, distinct float in every slot) behind a 0x2a800-byte prefix, each also with 1..55 trailing bytes; every file length 0x2a7f0..0x2a800+120"
+//@desc racial scaling parameters are returned exactly as stored: entry k holds the 14 little-endian floats at 0x2a800 + 56k, in field order; a trailing partial entry is ignored; short files yield None or an empty table, never a panic
+#[test]
+fn native_cmp_table() {
+    let mut cases = 0u64;
+    for n in [0usize, 1, 2, 40, 41] { for extra in [0usize, 1, 55] {
+        let mut b = vec![0xEEu8; 0x2a800];
+        for k in 0..n { for s in 0..14 { b.extend_from_slice(&((k * 14 + s) as f32 * 0.5 - 3.0).to_le_bytes()); } }
+        b.extend(std::iter::repeat(0x11u8).take(extra));
+        let c = CMP::from_existing(&b).expect("a table parses");
+        assert_eq!(c.parameters.len(), n, "{n} whole entries ({extra} trailing bytes)");
+        for (k, p) in c.parameters.iter().enumerate() {
+            let v = |s: usize| (k * 14 + s) as f32 * 0.5 - 3.0;
+            assert_eq!([p.male_min_size, p.male_max_size, p.male_min_tail, p.male_max_tail, p.female_min_size, p.female_max_size, p.female_min_tail, p.female_max_tail, p.bust_min_x, p.bust_min_y, p.bust_min_z, p.bust_max_x, p.bust_max_y, p.bust_max_z],
+                       [v(0), v(1), v(2), v(3), v(4), v(5), v(6), v(7), v(8), v(9), v(10), v(11), v(12), v(13)], "entry {k} is returned exactly as stored");
+        }
+        cases += 1;
+    } }
+    let big = vec![0x40u8; 0x2a800 + 120];
+    for len in (0x2a7f0..=big.len()).chain([0usize, 1, 100]) { let _ = CMP::from_existing(&big[..len]); cases += 1; }
+    println!("NATIVE native_cmp_table cases={cases}");
+}
